@@ -8,7 +8,8 @@ CONSTANT FnTab <- Tabs
 CONSTANT AdminSet <- Adm1
 CONSTANT MaxSetFn = 1
 CONSTANT MaxRuns = 2
-CONSTANT MaxWrites = 3
+CONSTANT MaxWrites = 2
+CONSTANT Observe = FALSE
 CONSTANT Dev <- Ideal
 SPECIFICATION Spec
 VIEW view
